@@ -658,7 +658,9 @@ impl Shape for Re {{ fn area(self) -> u64 {{ self.w * self.h }} }}
 fn tot<T>(x: T) -> u64 where T: Shape {{ x.area() }}
 const ARR: [u64; 3] = [{a}, {b}, {c}];
 const TUP: (u64, (bool, b256)) = ({a}, (false, {h1}));
+const GSTR = __to_str_array("a\nb\"c\\d\x00\x7fz");
 fn main() -> u64 {{
+    log(GSTR); log("a\nb\"c\\d");
     let big = [[{small}u8; 4]; 3];
     let nested = ((1u64, 2u64), [TUP.0; 2]);
     let e = __to_str_array("{lit}"); let _unused = {len};
